@@ -5,9 +5,10 @@ import vlib
 from vlib import NoVerdict, log
 
 CFG = {
-    "C17": dict(quick=["MCSigner_c17q", "MCSigner_c17c", "MCSigner_c17d", "MCSigner_c17lq"],
-                thorough=["MCSigner_c17t", "MCSigner_c17c", "MCSigner_c17d", "MCSigner_c17lt"], mode="c17", formula="TC17"),
-    "C18": dict(quick=["MCSigner_c18a", "MCSigner_c18b", "MCSigner_c18h", "MCSigner_c18r"], thorough=["MCSigner_c18t", "MCSigner_c18h", "MCSigner_c18r"], mode="c18", formula="TC18"),
+    "C17": dict(quick=["MCSigner_c17q", "MCSigner_c17c", "MCSigner_c17d", "MCSigner_c17lq", "MCSigner_c17x"],
+                thorough=["MCSigner_c17t", "MCSigner_c17c", "MCSigner_c17d", "MCSigner_c17lt", "MCSigner_c17x"], mode="c17", formula="TC17"),
+    "C18": dict(quick=["MCSigner_c18a", "MCSigner_c18b", "MCSigner_c18h", "MCSigner_c18r", "MCSigner_c18p"],
+                thorough=["MCSigner_c18t", "MCSigner_c18h", "MCSigner_c18r", "MCSigner_c18p"], mode="c18", formula="TC18"),
 }
 TRACE_CFG = """SPECIFICATION TraceSpec
 CONSTANTS
@@ -48,7 +49,12 @@ def model_check(prop, cfgname):
         raise NoVerdict("the MODEL violates %s under %s (model counterexample, not a verdict on the code):\n%s" % (r.violated, cfgname, r.stdout[-3000:]))
     if r.error or "Model checking completed. No error" not in r.stdout:
         raise NoVerdict("TLC failed on %s: %s" % (cfgname, r.error or r.stdout[-2000:]))
-    cases = vlib.tlc_json_lines(r.stdout, "CASE")
+    cases, seen = [], set()
+    for c in vlib.tlc_json_lines(r.stdout, "CASE"):
+        k = json.dumps(c, sort_keys=True)
+        if k not in seen:
+            seen.add(k)
+            cases.append(c)
     bot = vlib.tlc_json_lines(r.stdout, "BOT")
     log("[tlc] %s: %d generated / %d distinct, depth %d, %d configurations exported, %.1fs" % (cfgname, r.generated, r.distinct, r.depth, len(cases), r.wall))
     if not cases:
@@ -148,7 +154,8 @@ def vkey(trace, li):
         longs = [h for h in x.get("sh", []) if h.startswith("L")]
         return "(%d%s)" % (len(x["certs"]), (":" + "/".join(x["sh"])) if longs else "")
     eps = ",".join((x["cls"] + (okk(x) if x["cls"] == "ok" else "")) if x["id"] == "plain"
-                   else "%s/%s/%s/%s" % (x["id"], x["vmax"], x["pol"], x["cls"]) for x in r0["eps"]) or "-"
+                   else "%s/%s/%s%s/%s" % (x["id"], x["vmax"], x["pol"], ("+hint:" + x["hint"]) if x.get("hint", "own") not in ("own", "none") else "", x["cls"])
+                   for x in r0["eps"]) or "-"
     k = "sign n=%d via=%s eps=%s" % (len(r0["eps"]), info.get("via", "?"), eps)
     if r0["bundle"]["cas"]:
         k += " bundle=%s/%s" % ("+".join(r0["bundle"]["cas"]), r0["bundle"]["lay"])
@@ -306,8 +313,10 @@ def run(prop, tier):
     # 1. the property on the bounded model, first; the model's configurations are the replay plan
     plans = []
     bot = None
-    for cfgname in conf[tier]:
-        cases, b, st, tr = model_check(prop, cfgname)
+    import concurrent.futures
+    with concurrent.futures.ThreadPoolExecutor(max_workers=3) as ex:     # at most 3 TLC runs at a time
+        mcs = list(ex.map(lambda c: model_check(prop, c), conf[tier]))
+    for cfgname, (cases, b, st, tr) in zip(conf[tier], mcs):
         bot = bot or b
         tot_states += st
         tot_trans += tr
@@ -315,6 +324,7 @@ def run(prop, tier):
     sbin, bbin = build(prop)
 
     # 2. direction A (every exported configuration) and B (random concrete shapes) on the real code
+    all_traces = []
     for ci, (cfgname, cases) in enumerate(plans):
         wd = vlib.workdir(prop, "run_" + cfgname)
         nrand = 0
@@ -359,11 +369,13 @@ def run(prop, tier):
                     distinct.add(("contact", e["ep"], x["id"], x["vmax"], x["pol"], x["cls"], e["hs"], e["ver"], e["cc"], e["rpc"], e["same"]))
                 elif e["op"] == "return":
                     distinct.add(("return", len(t[0]["eps"]), e["err"], len(e["certs"]), len(e["cm"])))
-        judge(prop, verdict, sbin, bbin, traces, cfgname, stats)
         for t in (traces[len(traces) // 3], traces[-1]):
             if len(samples) < 4:
                 samples.append(sample_of(t))
+        all_traces += traces
         del traces
+    judge(prop, verdict, sbin, bbin, all_traces, "all", stats)     # one TLC trace-validation run over everything recorded
+    del all_traces
     if prop == "C17":
         if not bot:
             raise NoVerdict("TLC did not export the backoff class table")
